@@ -339,7 +339,10 @@ def run(ctx):
         case = {"kind": kind, "real_code": real_code, "manual_code": man_code, "input": v, "i": vi, "j": vj,
                 "f": ftext, "real": real, "manual": manr}
         # shape of the disagreement (for known_findings; every other shape is keyed by its input)
-        if kind in ("slice", "objslice") and int(ln) >= 0 and (vi == "N" or vj == "N") and "$i:$j" in real_code.replace("start: $i, end: $j", "$i:$j"):
+        if kind in ("slice", "objslice") and int(ln) >= 0 and ftext == "null":
+            # the update yields null: jaq refuses (typ:array), the manual's slice_upd deletes — whatever the bounds
+            key = "c10-manual:slice_upd:null-output"
+        elif kind in ("slice", "objslice") and int(ln) >= 0 and (vi == "N" or vj == "N") and "$i:$j" in real_code.replace("start: $i, end: $j", "$i:$j"):
             key = "c10-manual:slice_upd:null-bound"
         elif kind == "slice" and vi == "N" and "[$i:]" in real_code or kind == "slice" and vj == "N" and "[:$j]" in real_code:
             key = "c10-manual:slice_upd:null-bound"
